@@ -90,6 +90,16 @@ func runCheck(o checkOpts) int {
 	results = append(results, e.verifyProtocols(o.prop)...)
 	extra := e.extraChecks(o.prop)
 	results = append(results, extra...)
+	if b, err := os.ReadFile(filepath.Join(o.verif, "known_findings.json")); err == nil {
+		var pre []KnownFinding
+		if json.Unmarshal(b, &pre) == nil {
+			for _, k := range pre {
+				if k.Status == "finding" && k.Property == o.prop {
+					knownFailing[k.Obligation] = true
+				}
+			}
+		}
+	}
 	genS := time.Since(t0).Seconds() - loadS
 	dir, _ := os.MkdirTemp("", "govc-"+o.prop)
 	defer os.RemoveAll(dir)
